@@ -74,6 +74,26 @@ func (m *Model) StructDecl(t *Type) *Decl {
 	return nil
 }
 
+// FieldsParent analyses the parent type of a wire.FieldsOf item: the struct
+// declaration behind it and whether the parent is a pointer (fields are then
+// also provided by pointer).  Defined types count through their underlying
+// type, as in go/types: `type PS *S` is a pointer parent.
+func (m *Model) FieldsParent(t *Type) (*Decl, bool) {
+	u, d := Underlying(m.S, t)
+	if d != nil {
+		if d.Form == "struct" {
+			return d, false
+		}
+		return nil, false
+	}
+	if u != nil && u.K == "ptr" {
+		if sd := m.StructDecl(u.Elem); sd != nil {
+			return sd, true
+		}
+	}
+	return nil, false
+}
+
 // fieldByName finds a field by exact name.
 func fieldByName(d *Decl, name string) *SField {
 	for i := range d.Fields {
@@ -225,12 +245,7 @@ func (m *Model) itemErrs(i int) []MErr {
 			errs = append(errs, MErr{Class: "ivalue-impl", Types: []string{m.K(it.Conc), m.K(it.Out)}})
 		}
 	case "fields":
-		pt := resolveAlias(m.S, it.Parent)
-		st := pt
-		if pt.K == "ptr" {
-			st = pt.Elem
-		}
-		d := m.StructDecl(st)
+		d, _ := m.FieldsParent(it.Parent)
 		if d == nil {
 			errs = append(errs, MErr{Class: "notstruct"})
 			return errs
@@ -275,13 +290,7 @@ func (m *Model) Sources(i int) []*Src {
 	case "ivalue":
 		return []*Src{mk("ivalue", it.Out)}
 	case "fields":
-		pt := resolveAlias(m.S, it.Parent)
-		isPtr := pt.K == "ptr"
-		st := pt
-		if isPtr {
-			st = pt.Elem
-		}
-		d := m.StructDecl(st)
+		d, isPtr := m.FieldsParent(it.Parent)
 		var out []*Src
 		for _, n := range it.Fields {
 			f := fieldByName(d, n)
@@ -671,11 +680,7 @@ func (m *Model) Judge(i int) *Verdict {
 				}
 			}
 		case "field":
-			pt := resolveAlias(m.S, it.Parent)
-			if pt.K == "ptr" {
-				pt = pt.Elem
-			}
-			if d := m.StructDecl(pt); d != nil && d.Pkg != 0 && !exported(s.FieldName) {
+			if d, _ := m.FieldsParent(it.Parent); d != nil && d.Pkg != 0 && !exported(s.FieldName) {
 				v.Errs = append(v.Errs, MErr{Class: "inaccessible", Note: s.FieldName})
 			}
 		}
